@@ -153,11 +153,13 @@ def run(R, tier, seed, driver_ok):
         A = rng.randn(d, d)
         A = A.dot(A.T)
         A[0, 1] += 1e-3 * np.abs(A).max()
-        A = A * 2.0 ** int(rng.choice([0, 0, -40, -60, 40]))      # the same matrix in other units (exact scaling)
-        R.case(('c20-ns', A.tobytes().hex()), True, branch='non-symmetric')
+        sc_ = int(rng.choice([0, 0, -40, -60, 40]))
+        A = A * 2.0 ** sc_      # the same matrix in other units (exact scaling)
+        units = '' if sc_ >= 0 else '-tiny-units'
+        R.case(('c20-ns', A.tobytes().hex()), True, branch='non-symmetric' + units)
         try:
             _util.components_from_metric(A)
-            R.violation('components_from_metric/non-symmetric/accepted', 'non-symmetric matrix accepted', {'M': A})
+            R.violation(f'components_from_metric/non-symmetric{units}/accepted', f'non-symmetric matrix accepted (entries of order {np.abs(A).max():.1g})', {'M': A})
         except NonPSDError:
             R.violation('components_from_metric/non-symmetric/NonPSDError', 'non-symmetric matrix raised NonPSDError', {'M': A})
         except ValueError:
